@@ -350,6 +350,7 @@ struct WorldSO : World, Net {
       bool hard = zone.fail.count(host) && zone.fail[host] == "hard";
       if (zone.mx.count(host) && !zone.mx[host].empty()) { bool all_hard = true; for (auto &m : zone.mx[host]) if (!(zone.fail.count(m.second) && zone.fail[m.second] == "hard")) all_hard = false; if (all_hard) hard = true; }   // none of the MX names exists: nowhere to send it, ever
       if (v == 'K') { violate("C09.success-without-connection", "no SMTP connection was established but qmail-remote reported " + outs); return; }
+      if (ambig && alloc_fired && !connect_order.empty()) { k->probe("c09_own_mx_hidden_by_allocation_failure"); return; }   // (the lookup of this host's own MX name failed for want of memory: it could not recognise itself)
       if (ambig) { if (!connect_order.empty()) violate("C09.mx-loop", "this host is the best MX and qmail-remote still connected somewhere: " + outs); k->probe("c09_best_mx_is_this_host"); return; }   // (documented as a permanent failure; not K is what the property needs)
       if (!hard && v != 'Z') { violate("C09.connect-trouble-not-temporary", "connection trouble must be a temporary failure; qmail-remote reported " + outs); return; }
       for (size_t i = 0; i + 1 < segs.size(); i++) if (!segs[i].empty() && segs[i][0] == 'r') { violate("C09.recipient-accepted-without-server", outs); return; }
